@@ -65,9 +65,15 @@ Present(n) == IF n = <<>> THEN <<46>>
 (* The one reader of presentation text (RFC 1035 section 5.1):                *)
 (*   \DDD  = the octet with that decimal value (DDD <= 255)                    *)
 (*   \X    = X, for X not a digit                                              *)
+(*   \D    = D for a digit D that is not the first of three digits: RFC 1035   *)
+(*           does not define this spelling; every reader in the library (and   *)
+(*           BIND) takes it as the digit itself, and the clauses "IsDomainName *)
+(*           exactly when PackDomainName accepts" / "helpers agree with the    *)
+(*           wire labels" quantify over such texts too, so the specification   *)
+(*           fixes this one reading (round-4 seeds C03-11, C19-11)             *)
 (*   .     = label separator unless escaped                                    *)
 (* st: "ok" | "bad" (no reading accepts: empty label, dangling backslash)      *)
-(*     | "undef" (outside RFC 1035: \DDD > 255, backslash + 1 or 2 digits)     *)
+(*     | "undef" (outside RFC 1035: \DDD > 255)                                *)
 (* labels: the octets of each label; starts: 0-based text offset where each    *)
 (* label begins; fq: text ended with an unescaped dot.                         *)
 RECURSIVE P(_, _, _, _, _, _)
@@ -81,8 +87,7 @@ P(s, i, cur, labs, starts, curStart) ==
         LET v == 100 * (s[i+1] - 48) + 10 * (s[i+2] - 48) + (s[i+3] - 48) IN
         IF v > 255 THEN [st |-> "undef", labels |-> labs, starts |-> starts, fq |-> FALSE]
         ELSE P(s, i + 4, Append(cur, v), labs, starts, curStart)
-      ELSE IF i + 1 <= Len(s) /\ ~IsDigit(s[i+1]) THEN P(s, i + 2, Append(cur, s[i+1]), labs, starts, curStart)
-      ELSE IF i + 1 <= Len(s) THEN [st |-> "undef", labels |-> labs, starts |-> starts, fq |-> FALSE]
+      ELSE IF i + 1 <= Len(s) THEN P(s, i + 2, Append(cur, s[i+1]), labs, starts, curStart)   \* also a digit not followed by two more: see above
       ELSE [st |-> "bad", labels |-> labs, starts |-> starts, fq |-> FALSE]
     ELSE IF c = 46 THEN
       IF cur = <<>> THEN
